@@ -190,8 +190,10 @@ static inline int readline_putchar(struct readline *rl, char c)
             // TODO: Возможно тут некорректно отрабатывается комбинация rnrnrnrn
             if ((rl->last == '\n' || rl->last == '\r') && rl->last != c)
             {
+                // second byte of a CR LF / LF CR pair: it must not pair again
+                // with the byte that follows
                 rl->last = 0;
-                retcode = READLINE_NOTHING;
+                return READLINE_NOTHING;
             }
             else
             {
